@@ -802,6 +802,7 @@ def _sparse_case(draw):
 
 
 class Sparse(Sub):
+    fuzz_runs = 15000     # thorough tier: additional coverage-guided (atheris) campaign, same strategy / oracle
     name = "sparse"
     n = {"quick": 6000, "thorough": 120000}
 
